@@ -9,13 +9,15 @@ EXTENDS AnyVec, Json, TLC, TLCExt
 
 CONSTANTS Alpha,      \* set of enabled operation names
           MaxLen, MaxLenB, MaxExt, MaxOut, MaxRepl, MaxIters,
+          MaxCap,     \* bound on the modelled capacity (models that track capacity)
           OneHandle,  \* TRUE: at most one vector has an outstanding handle at a time (bounds the product space)
           SinkKinds,  \* value-sink kinds explored: subset of {"drop","ext","push","insert","forget"}
           Srcs,       \* value-source kinds for push/insert/splice: subset of {"wrapper","raw","typed"}
           Forms       \* RangeBounds forms: subset of {"x..y","x..=y","..y","..=y","x..","..","x<..y","x<..=y","x<.."}
 
 (* configuration classes for exploration (the trace validator takes Cfg from the trace header) *)
-CfgHeap    == [fixed |-> FALSE, fcap |-> 0, ids |-> TRUE, drop |-> TRUE, trackcap |-> FALSE, maxu |-> 1000000]
+CfgHeap    == [fixed |-> FALSE, fcap |-> 0, ids |-> TRUE, drop |-> TRUE, trackcap |-> FALSE, maxu |-> 1000000,
+               esz |-> 8, backend |-> "heap", alloc |-> TRUE]
 CfgHeapCap == [CfgHeap EXCEPT !.trackcap = TRUE]
 CfgFixed2  == [CfgHeap EXCEPT !.fixed = TRUE, !.fcap = 2]
 CfgFixed3  == [CfgHeap EXCEPT !.fixed = TRUE, !.fcap = 3]
@@ -46,6 +48,7 @@ MutCount == Cardinality({i \in 1..Len(AllElems(st)) : AllElems(st)[i][2] = 1})
 (* discovered it: the printed <<nid, nid', action>> triples form a tree (trie of action paths) over all transitions. *)
 Do(a) == /\ LET r == Apply(st, a, Fresh(st, MaxRepl + 1)) IN
               /\ Len(r.st.ext) <= MaxExt        \* a rejected raw-pointer value comes back to the driver
+              /\ \A w \in Vecs : r.st.v[w].cap <= MaxCap
               /\ st' = r.st
          /\ last' = a
          /\ nid' = TLCGetAndSet(1, LAMBDA x, y : x + y, 1, 0) + 1
@@ -96,6 +99,12 @@ Next ==
             /\ (p = "typed") = (src = "typed")
             /\ (Cfg.fixed \/ Len0(x) + n <= CapOf(x) + 1)
             /\ Do([op |-> "splice_begin", v |-> x, sk |-> r.sk, sv |-> r.sv, ek |-> r.ek, ev |-> r.ev, path |-> p, n |-> n, src |-> src])
+       \/ "cap" \in Alpha /\ ~Cfg.fixed /\ \E p \in Paths :
+            \/ \E n \in (0..(MaxCap - Len0(x))) \cup ((Cfg.maxu - 2)..Cfg.maxu), op \in {"reserve", "reserve_exact"} :
+                 Do([op |-> op, v |-> x, n |-> n, path |-> p])
+            \/ Do([op |-> "shrink_to_fit", v |-> x, n |-> 0, path |-> p])
+            \/ \E n \in (0..(MaxCap + 1)) \cup {Cfg.maxu} : Do([op |-> "shrink_to", v |-> x, n |-> n, path |-> p])
+       \/ "recreate" \in Alpha /\ ~Cfg.fixed /\ \E n \in 0..3 : Do([op |-> "recreate", v |-> x, n |-> n])
        \/ "iter" \in Alpha /\ \E kind \in {"iter", "iter_mut", "titer", "titer_mut"} :
             Do([op |-> "iter_begin", v |-> x, kind |-> kind])
   \/ \E x \in Vecs : st.v[x].h.k = "tmp" /\
@@ -107,8 +116,10 @@ Next ==
              sk \in Sinks(x, IF st.v[x].h.path = "typed" THEN {"drop", "ext"}
                              ELSE AllSinks \cup (IF "keep" \in Alpha /\ Len(st.v[x].h.out) < MaxOut THEN {"keep"} ELSE {})) :
             Do([op |-> "next", v |-> x, end |-> end, sink |-> sk])
-       \/ Do([op |-> "range_drop", v |-> x])
-       \/ "forget" \in Alpha /\ Do([op |-> "range_forget", v |-> x])
+       \* dropping / forgetting the iterator while items it yielded are still alive is explored only on request
+       \* ("outlive"): it is a recorded finding of the crate (see known_findings.json) and poisons everything after it
+       \/ (st.v[x].h.out = <<>> \/ "outlive" \in Alpha) /\ Do([op |-> "range_drop", v |-> x])
+       \/ "forget" \in Alpha /\ (st.v[x].h.out = <<>> \/ "outlive" \in Alpha) /\ Do([op |-> "range_forget", v |-> x])
   \/ \E x \in Vecs : st.v[x].h.k \in {"range", "items"} /\
        \E k \in 1..Len(st.v[x].h.out), sk \in Sinks(x, AllSinks) : Do([op |-> "item_consume", v |-> x, k |-> k, sink |-> sk])
   \/ \E x \in Vecs : st.v[x].h.k = "iter" /\
